@@ -59,6 +59,9 @@ type XHistory struct {
 	NewErr   []error
 	CloseAt  map[int][]time.Duration // per upstream: when Close was called
 	CloseRet map[int][]time.Duration // when it returned
+	// connections to a closed upstream's server that were open 3 s after its
+	// Close returned and still 2 s later
+	LeftAfterClose []string
 	Open     []string
 	Events   []plan.ServerEvent
 	// UDPSent: queries the proxy put on the wire over UDP (seen before loss).
@@ -257,6 +260,37 @@ func RunXport(t *testing.T, p *plan.Plan, keepLog int) *Result {
 							h.CloseRet[cl.Up] = append(h.CloseRet[cl.Up], s.Now())
 							hmu.Unlock()
 							s.Logf("close_ret", "up=%d", cl.Up)
+							if i == 0 {
+								// what the proxy still has open towards this server
+								// 3 s after Close returned and still 2 s later was
+								// left behind by Close (the 150 s grace at the end of
+								// the run hides what an idle timer tidies up)
+								host := xp.Upstreams[cl.Up].Host
+								snap := func() map[string]bool {
+									m := map[string]bool{}
+									for _, d := range w.OpenEndpoints(vnet.OwnerProxy) {
+										if strings.HasPrefix(d, "stream#") && strings.Contains(d, "->"+host+":") {
+											m[d] = true
+										}
+									}
+									return m
+								}
+								s.After(3*time.Second, "leak_probe", func() {
+									a := snap()
+									s.After(2*time.Second, "leak_probe2", func() {
+										var left []string
+										for d := range snap() {
+											if a[d] {
+												left = append(left, d)
+											}
+										}
+										sort.Strings(left)
+										hmu.Lock()
+										h.LeftAfterClose = append(h.LeftAfterClose, left...)
+										hmu.Unlock()
+									})
+								})
+							}
 							time.Sleep(time.Duration(s.IntN("closegap", uint64(cl.Up), 5000)) * time.Microsecond)
 						}
 					}()
@@ -879,6 +913,9 @@ func checkC18x(h *XHistory) {
 	}
 	if len(h.Open) > 0 {
 		s.Fail("C18", "leak-after-close", "after Close and a 150 s grace period the proxy still owns: %s", strings.Join(h.Open, "; "))
+	}
+	if len(h.LeftAfterClose) > 0 {
+		s.Fail("C18", "connection-left-open-by-close", "3 s after Close of the upstream returned, and still 2 s later, the proxy had these connections to its server open: %s", strings.Join(h.LeftAfterClose, "; "))
 	}
 	s.Probe("c18_upstream_close_checked")
 	for up, ats := range h.CloseAt {
